@@ -9,9 +9,89 @@
 
 namespace {
 
-// ---- allocation balance (global operator new/delete replaced below)
+// ---- allocation balance (global operator new/delete replaced below): only blocks allocated while the
+// library is executing an API call on behalf of the pipeline are tracked (harness bookkeeping is excluded).
 std::int64_t gLiveBlocks = 0;
 bool gCountAllocs = false;
+constexpr std::size_t kTable = 8192;
+void* gTable[kTable];
+void TableInsert(void* p) {
+  auto h = (reinterpret_cast<std::uintptr_t>(p) >> 4) % kTable;
+  for (std::size_t i = 0; i < kTable; ++i) {
+    auto& slot = gTable[(h + i) % kTable];
+    if (slot == nullptr || slot == reinterpret_cast<void*>(1)) {
+      slot = p;
+      ++gLiveBlocks;
+      return;
+    }
+  }
+}
+void TableErase(void* p) {
+  auto h = (reinterpret_cast<std::uintptr_t>(p) >> 4) % kTable;
+  for (std::size_t i = 0; i < kTable; ++i) {
+    auto& slot = gTable[(h + i) % kTable];
+    if (slot == p) {
+      slot = reinterpret_cast<void*>(1);  // tombstone
+      --gLiveBlocks;
+      return;
+    }
+    if (slot == nullptr) {
+      return;
+    }
+  }
+}
+// the flag is per fiber: a fiber switch can happen in the middle of a library call
+bool gFlag[256];
+bool& Flag() {
+  return gFlag[yaclib::fault::Scheduler::GetId() % 256];
+}
+struct Count {
+  bool old = Flag();
+  Count() {
+    Flag() = true;
+  }
+  ~Count() {
+    Flag() = old;
+  }
+};
+struct NoCount {
+  bool old = Flag();
+  NoCount() {
+    Flag() = false;
+  }
+  ~NoCount() {
+    Flag() = old;
+  }
+};
+void Mark(const std::string& s) {
+  NoCount nc;
+  vrt::Event(s);
+}
+void (*gOrigBefore)(const volatile void*, const char*) = nullptr;
+void (*gOrigAfter)(const volatile void*, std::size_t, const char*) = nullptr;
+void HookBefore(const volatile void* o, const char* op) {
+  NoCount nc;
+  gOrigBefore(o, op);
+}
+void HookAfter(const volatile void* o, std::size_t n, const char* op) {
+  NoCount nc;
+  gOrigAfter(o, n, op);
+}
+std::int64_t (*gOrigChoose)(int, std::uint64_t) = nullptr;
+std::int64_t (*gOrigPick)(const std::uint64_t*, std::size_t, std::int64_t) = nullptr;
+void (*gOrigResume)(std::uint64_t) = nullptr;
+std::int64_t HookChoose(int k, std::uint64_t n) {
+  NoCount nc;
+  return gOrigChoose(k, n);
+}
+std::int64_t HookPick(const std::uint64_t* ids, std::size_t n, std::int64_t self) {
+  NoCount nc;
+  return gOrigPick(ids, n, self);
+}
+// blocks freed during an execution are kept until its end, so that a new core never gets the address of a
+// released one (locations are named by address)
+std::vector<void*> gQuarantine;
+bool gInExecution = false;
 
 // ---- instance tracking
 struct Registry {
@@ -20,18 +100,21 @@ struct Registry {
   int destroyed = 0;
   std::vector<std::string> errors;
   void Ctor(const void* p) {
+    NoCount nc;
     ++constructed;
     if (!live.insert(p).second) {
       errors.push_back("object constructed over a live object");
     }
   }
   void Dtor(const void* p) {
+    NoCount nc;
     ++destroyed;
     if (live.erase(p) == 0) {
       errors.push_back("destructor ran on an object that is not alive (double destruction)");
     }
   }
   void Use(const void* p, const char* what) {
+    NoCount nc;
     if (live.count(p) == 0) {
       errors.push_back(std::string(what) + " on an object that is not alive");
     }
@@ -111,7 +194,7 @@ struct Fn {
   }
   ~Fn() {
     if (!moved_from) {
-      vrt::Event("fd " + std::to_string(id));
+      Mark("fd " + std::to_string(id));
     }
     gFn.Dtor(this);
   }
@@ -120,7 +203,7 @@ struct FnResult : Fn {
   using Fn::Fn;
   Val operator()(R&& r) && {
     gFn.Use(this, "call");
-    vrt::Event("call " + std::to_string(id));
+    Mark("call " + std::to_string(id));
     if (kind == Kind::Throws) {
       throw 7;
     }
@@ -131,7 +214,7 @@ struct FnValue : Fn {
   using Fn::Fn;
   Val operator()(Val&& v) && {
     gFn.Use(this, "call");
-    vrt::Event("call " + std::to_string(id));
+    Mark("call " + std::to_string(id));
     if (kind == Kind::Throws) {
       throw 7;
     }
@@ -142,7 +225,7 @@ struct FnFinal : Fn {  // for Detach*: returns void
   using Fn::Fn;
   void operator()(R&& r) && {
     gFn.Use(this, "call");
-    vrt::Event("call " + std::to_string(id));
+    Mark("call " + std::to_string(id));
     (void)r;
   }
 };
@@ -191,6 +274,7 @@ std::string FmtWord(std::uint64_t v) {
 }
 
 void NameCore(int i, yaclib::detail::BaseCore* core) {
+  NoCount nc;
   vrt::NameLoc(&core->_callback, "w" + std::to_string(i), FmtWord);
   // operations that happened on this word before it could be named were traced as u<k>
   auto it = vrt::g.unknown.find(&core->_callback);
@@ -210,7 +294,8 @@ struct Params {
 
 template <typename Fut>
 void Finish(const Params& p, Fut f, int n) {
-  vrt::Event("final");
+  Mark("final");
+  Count cnt;
   switch (p.fin) {
     case 0: {
       R r = std::move(f).Get();
@@ -236,24 +321,28 @@ void Build(const Params& p, Fut f, int i, CountingInline& alive, CountingInline&
     Finish(p, std::move(f), p.len);
     return;
   }
-  vrt::Event("then " + std::to_string(i));
+  Mark("then " + std::to_string(i));
   const Kind k = static_cast<Kind>(p.kind[i - 1]);
   const int mode = p.mode[i - 1];
   auto next = [&](auto g) {
     NameCore(i, g.GetCore().Get());
     Build(p, std::move(g), i + 1, alive, stopped);
   };
+  auto counted = [&](auto&& make) {
+    Count cnt;
+    return make();
+  };
   if (k == Kind::TakesValue) {
     if (mode == 0) {
-      next(std::move(f).ThenInline(FnValue{i, k}));
+      next(counted([&] { return std::move(f).ThenInline(FnValue{i, k}); }));
     } else {
-      next(std::move(f).Then(mode == 1 ? alive : stopped, FnValue{i, k}).On(nullptr));
+      next(counted([&] { return std::move(f).Then(mode == 1 ? alive : stopped, FnValue{i, k}).On(nullptr); }));
     }
   } else {
     if (mode == 0) {
-      next(std::move(f).ThenInline(FnResult{i, k}));
+      next(counted([&] { return std::move(f).ThenInline(FnResult{i, k}); }));
     } else {
-      next(std::move(f).Then(mode == 1 ? alive : stopped, FnResult{i, k}).On(nullptr));
+      next(counted([&] { return std::move(f).Then(mode == 1 ? alive : stopped, FnResult{i, k}).On(nullptr); }));
     }
   }
 }
@@ -264,14 +353,20 @@ void RunScenario(const Params& p) {
   vrt::g.trace_unknown = true;
   CountingInline alive{true};
   CountingInline stopped{false};
+  std::memset(gTable, 0, sizeof(gTable));
+  gLiveBlocks = 0;
   const std::int64_t blocks_before = gLiveBlocks;
-  gCountAllocs = true;
+  gInExecution = true;
   {
-    auto [f, pr] = yaclib::MakeContract<Val, Err>();
+    auto [f, pr] = [] {
+      Count cnt;
+      return yaclib::MakeContract<Val, Err>();
+    }();
     NameCore(0, f.GetCore().Get());
     yaclib_std::thread tp([&, pr = std::move(pr)]() mutable {
       vrt::NameThread("P");
-      vrt::Event("set");
+      Mark("set");
+      Count cnt;
       switch (p.src) {
         case 0:
           std::move(pr).Set(Val{1});
@@ -294,7 +389,11 @@ void RunScenario(const Params& p) {
     tp.join();
     tc.join();
   }
-  gCountAllocs = false;
+  gInExecution = false;
+  for (void* q : gQuarantine) {
+    std::free(q);
+  }
+  gQuarantine.clear();
   // ---- oracle
   for (auto& e : gFn.errors) {
     vrt::Fail("functor: " + e);
@@ -320,27 +419,50 @@ void* operator new(std::size_t n) {
   if (p == nullptr) {
     throw std::bad_alloc{};
   }
-  if (gCountAllocs) {
-    ++gLiveBlocks;
+  if (Flag()) {
+    TableInsert(p);
   }
   return p;
 }
-void operator delete(void* p) noexcept {
-  if (p != nullptr && gCountAllocs) {
-    --gLiveBlocks;
+static void Release(void* p) noexcept {
+  if (p == nullptr) {
+    return;
   }
-  std::free(p);
+  TableErase(p);
+  if (gInExecution && gQuarantine.size() < gQuarantine.capacity()) {
+    gQuarantine.push_back(p);
+  } else {
+    std::free(p);
+  }
+}
+void operator delete(void* p) noexcept {
+  Release(p);
 }
 void operator delete(void* p, std::size_t) noexcept {
-  if (p != nullptr && gCountAllocs) {
-    --gLiveBlocks;
-  }
-  std::free(p);
+  Release(p);
 }
 
 int main(int argc, char** argv) {
   vrt::Main m(argc, argv);
+  gOrigBefore = yaclib::verif::gHooks.before;
+  gOrigAfter = yaclib::verif::gHooks.after;
+  yaclib::verif::gHooks.before = HookBefore;
+  yaclib::verif::gHooks.after = HookAfter;
+  gOrigChoose = yaclib::verif::gHooks.choose;
+  gOrigPick = yaclib::verif::gHooks.pick_fiber;
+  yaclib::verif::gHooks.choose = HookChoose;
+  yaclib::verif::gHooks.pick_fiber = HookPick;
+  gQuarantine.reserve(1 << 16);
   const int max_len = std::atoi(m.Param("maxlen", "2").c_str());
+  {
+    // warm-up: lazily initialised library/runtime statics allocate on first use; not part of any pipeline
+    Params w{};
+    w.len = 1;
+    (void)vrt::RunOnce([w] {
+      RunScenario(w);
+    });
+    vrt::g.prefix.clear();
+  }
   for (int len = 1; len <= max_len; ++len) {
     int combos = 1;
     for (int i = 0; i < len; ++i) {
